@@ -51,6 +51,40 @@ for _f in FAMILIES:
     _mk(_f)
 
 
+def _mk_serverbase(family):
+    @obligation('C14.pipeline.%s.serverbase' % family, targets=['spyne.server._base:ServerBase.generate_contexts',
+                                                                'spyne.server._base:ServerBase.get_in_object',
+                                                                'spyne.server._base:ServerBase.get_out_object',
+                                                                'spyne.server._base:ServerBase.get_out_string',
+                                                                'spyne.context:MethodContext.close'],
+                desc="the same event contract through a plain ServerBase driven like the package's message transports "
+                     "(generate_contexts, get_in_object, get_out_object, get_out_string, close): every request kind, "
+                     "every single failing listener, every outcome of the user function", assumptions=ASSUME)
+    def ob(c):
+        kinds = sorted(k for k in requests_for(family) if k not in ('declared_too_long', 'content_length_not_a_number'))
+        kind = c.choose(kinds, 'request_kind')
+        failing = c.choose(FAIL_SITES, 'failing_listener') if kind == 'valid' else None
+        h = Harness(c, family, failing=failing)
+        out = h.run_serverbase(kind)
+        c.check('driver_calls_return', out.returned, detail=repr(out))
+        if not out.returned:
+            return
+        valid = kind == 'valid'
+        fail_call = failing is not None and failing[1] == 'method_call'
+        user_reachable = valid and not fail_call
+        user_ok = user_reachable and h.user_outcome == 'return'
+        fail_ret = failing is not None and failing[1] == 'method_return_object' and user_ok
+        expected_fault = (not valid) or fail_call or fail_ret or (user_reachable and not user_ok)
+        for name, ok, detail in ev_spec.check_call(c.trace, expected_fault, user_ok, user_reachable, failing):
+            c.check(name, ok, detail=detail)
+    return ob
+
+
+for _f in FAMILIES:
+    if _f != 'http':          # HttpRpc needs an HTTP transport context
+        _mk_serverbase(_f)
+
+
 # ---------------------------------------------------------------------------------------------
 # data-structure level: ordered de-duplicating handler set, registration, firing, inheritance
 
